@@ -62,6 +62,30 @@ def make_tracer(cfg, f=None, t=None):
 cancellation_bound = U.cancellation_bound
 
 
+def leg_info(s):
+    """(shortest of the first / last straight leg whose end points define the emitted / received direction, number of
+    straight legs) for solutions whose directions are computed from stored points (uniform sections); None otherwise."""
+    name = type(s).__name__
+    if name == "UniformRayTracePath":
+        with np.errstate(all="ignore"):
+            pts = [U.fl(p) for p in s._points]
+        if len(pts) < 2:
+            return None
+        return min(math.dist(pts[0], pts[1]), math.dist(pts[-2], pts[-1])), len(pts) - 1
+    if name == "LayeredRayTracePath":
+        ends = [leg_info(s.paths[0]), leg_info(s.paths[-1])]
+        ends = [e for e in ends if e is not None]
+        if not ends:
+            return None
+        return min(e[0] for e in ends), len(s.paths)
+    return None
+
+
+def coord_ulp(tr):
+    """rounding unit of the largest horizontal coordinate the tracer was given."""
+    return math.ulp(max(abs(float(x)) for p in (tr.from_point, tr.to_point) for x in p[:2]) or 1.0)
+
+
 def observe(tr):
     """list of dicts, one per solution, plus exists."""
     with np.errstate(all="ignore"):
@@ -70,7 +94,8 @@ def observe(tr):
         out = []
         for s in sols:
             out.append({"L": float(s.path_length), "tof": float(s.tof), "att": [float(x) for x in np.asarray(s.attenuation(FREQS))],
-                        "em": U.fl(s.emitted_direction), "rc": U.fl(s.received_direction), "obj": s, "B": cancellation_bound(s)})
+                        "em": U.fl(s.emitted_direction), "rc": U.fl(s.received_direction), "obj": s, "B": cancellation_bound(s),
+                        "legs": leg_info(s), "u": coord_ulp(tr)})
     return ex, out
 
 
@@ -183,6 +208,20 @@ def compare(ctx, cfg, what, oa, ob, map_em, map_rc, att_allow=None, key_extra=No
             cL = 1.01 * (Bsum[1] + 2 * Bsum[0])
             cT = 1.01 * (Bsum[2] + 2 * 1.8 * Bsum[0] / U.C0)
             cD = 4.0 * Bsum[0] / max(a["L"], 1.0) / max(min(abs(a["em"][2]), abs(a["rc"][2])), 1e-3) ** 3
+            # coordinate rounding (derived): the endpoints handed to the two tracers are the same geometry only up to one rounding
+            # unit u = ulp(largest |x|, |y|) of each coordinate system (x + T and the rotation are rounded), and every stored
+            # point fx + r cos(phi) is rounded to u/2 again.  A straight leg of length l whose end points move by <= 4u
+            # turns by <= 8u / l (|v/|v| - w/|w|| <= 2 |v - w| / |v|), and each of the n legs changes its length by <= 8u.
+            # Factor 4 of safety on both.
+            u = a["u"] + b["u"]
+            if a["legs"] is not None and b["legs"] is not None:
+                lmin = min(a["legs"][0], b["legs"][0])
+                cD += 32.0 * u / lmin if lmin > 0 else float("inf")
+                cLr = 32.0 * (max(a["legs"][1], b["legs"][1]) + 1) * u
+            else:
+                cLr = 32.0 * u
+            cL += cLr
+            cT += 2.0 * cLr / U.C0
             if abs(a["L"] - b["L"]) > absl + rel * (1 + abs(a["L"])) + cL:
                 probs.append("path_length %r vs %r (cancellation allowance %.3g)" % (a["L"], b["L"], cL))
             if abs(a["tof"] - b["tof"]) > rel * abs(a["tof"]) + 2 * absl / U.C0 + 1e-18 + cT:
